@@ -581,7 +581,9 @@ func searchFragmentRead(w string, file []byte, frm, frl *mp4.Fragment, trex *mp4
 		}
 	}
 	n := len(want)
-	if n == 0 {
+	if n == 0 || truth == nil {
+		// no ground truth: an irregular file whose trun may point outside the mdat it got paired with (not a valid
+		// sample range; in memory the slice expression then runs into the spare capacity of Data)
 		return
 	}
 	for a := 1; a <= n; a++ {
